@@ -38,16 +38,18 @@ func newVoteDistribution(proofs map[string]gcrypto.CommonMessageSignatureProof, 
 	// TODO: derive hash of trustedVals, ensure each proof matches that hash.
 	// Otherwise we risk reading an invalid proof and incorrectly calculating vote power.
 
-	// TODO: ensure we don't double count a validator,
-	// if one public key is present in multiple votes somehow.
-
-	var bs bitset.BitSet
+	// A validator present in multiple votes
+	// only counts once towards the vote power present.
+	var bs, counted bitset.BitSet
 	for blockHash, proof := range proofs {
 		proof.SignatureBitSet(&bs)
 		for i, ok := bs.NextSet(0); ok && int(i) < len(vals); i, ok = bs.NextSet(i + 1) {
 			pow := vals[int(i)].Power
 			d.BlockVotePower[string(blockHash)] += pow
-			d.VotePowerPresent += pow
+			if !counted.Test(i) {
+				counted.Set(i)
+				d.VotePowerPresent += pow
+			}
 		}
 	}
 
